@@ -125,6 +125,9 @@ def run(chk, tier):
         g = progen.ProgGen(((chk.seed + 27) % 1000003) * 100003 + i, emph=("cse", "call"), size=6)
         g.feat |= {"fun", "list", "for", "filt", "while"}
         wide.append(g.program("wr%d" % i))
+    # ... and constant expressions over boundary literals: run by the library with optimisation off, folded at compile time from -Q2
+    import foldprogs
+    wide += foldprogs.programs(chk.seed % 1000003, 3 if tier == "quick" else None)
     famw = progcheck.Family(chk, wide, "wide", workers=vlib.NCPU, timeout=1500)
     lvl = [c for c in chosen if len(c["opts"]) == 1 and c["opts"][0] in ("-Q0", "-Q2", "-Q3", "-Q5", "-Q9", "-O")]
     progcheck.replay(chk, b, famw, [("interp " + c["opts"][0], "interp", None, tuple(c["opts"])) for c in lvl], wd)
